@@ -111,6 +111,7 @@
 //	manager.go: observers grouped by /64 (seeded C17-2)                                       caught  C17/system/*-not-allowed/same-group-counted-twice (IPv6 runs)
 //	manager.go: connections re-keyed by remote address (seeded C17b-1)                        caught  C17/system/*-missing (two connections to one peer, one closes)
 //	manager.go: removal on close skipped                                                      caught  C17/system/*-not-allowed/closed-connection-counted
+//	manager.go: IsClosed guard removed altogether (M12)                                       caught by the UNSETTLED system variant only (close during identify)
 //	manager.go: IsClosed guard moved out of the lock (M19)                                    MISSED by the system stratum alone (needs the drawn identify-vs-close
 //	                                                                                          race at threshold-1; caught by the race and burst strata)
 //
@@ -453,7 +454,9 @@ func run(t *testing.T, tape *simrt.Tape) *common.Outcome {
 		}
 	}
 	if stratum == 3 {
-		return runSystem(t, tape, g, o)
+		// bit 5 of the same draw: settled (as before: IdentifyWait + 11 s + check after EVERY operation, warm start) |
+		// unsettled (drawn: no settle after about half of the operations, cold start in half of the runs)
+		return runSystem(t, tape, g, o, (r>>5)%2 == 1 || os.Getenv("C17_UNSETTLED") != "")
 	}
 	burst, race := stratum == 1, stratum == 2
 	stubYield = stratum != 0
